@@ -61,7 +61,7 @@ class Rule:
         return cond
 
     def done(self):
-        if self.instances < self.floor:
+        if self.instances < self.floor and not self.findings:
             raise AnalysisError('rule %s went vacuous: %d instances matched, at least %d were confirmed by hand '
                                 'on the pinned tree (%s)' % (self.rid, self.instances, self.floor, self.desc))
         self.ctx.rules.append(self)
